@@ -202,3 +202,21 @@ Proof.
     apply Hbin. exists x. auto. }
   rewrite Hu. cbn [Z.eqb]. reflexivity.
 Qed.
+
+(* deallocall forgets the chunks but leaves their NODE_COOKIE marks in the buffer: a pointer of the
+   previous generation still passes the cookie test once its old header lies inside a new block.
+   heap(1024): alloc(100); b = alloc(50); deallocall; alloc(400); dealloc(b) is accepted *)
+Theorem heap_mem_invalid_free_reported_refuted_proof : ~ heap_mem_invalid_free_reported_full.
+Proof.
+  intros H.
+  pose (c := mkhcfg 4104 1024).
+  assert (Hc : hcfg_ok c) by (unfold hcfg_ok, c, two64; cbn; lia).
+  pose (ops := [HAlloc 100; HAlloc 50; HDeallocAll; HAlloc 400]).
+  assert (Hu : Forall hop_usize ops) by (unfold ops, hop_usize, usize, two64; repeat constructor; lia).
+  destruct (crun c (heap_init_state, []) ops) as [[s live]|] eqn:E; [|vm_compute in E; discriminate E].
+  assert (Hin : h_initialized s = true) by (vm_compute in E; inversion E; reflexivity).
+  assert (Hl : live = [mkblk (4104 + 40) 400]) by (vm_compute in E; inversion E; reflexivity).
+  specialize (H c ops s live (4104 + 184) Hc Hu E Hin ltac:(unfold two64; lia)).
+  assert (Hnot : ~ In (4104 + 184) (map b_addr live)) by (rewrite Hl; cbn; intros [Hx | []]; discriminate Hx).
+  specialize (H Hnot). vm_compute in E. inversion E; subst s. vm_compute in H. discriminate H.
+Qed.
